@@ -22,6 +22,19 @@ import torch
 import torch.nn as nn
 
 
+def _free_buffer_name(mod: nn.Module, name: str, prefix: str) -> str:
+    """Returns `name` if `mod` has no attribute with that name yet, otherwise a prefixed (and,
+    if needed, numbered) variant, so that two calculators registered on the same module never
+    overwrite each other's buffers."""
+    if not hasattr(mod, name):
+        return name
+    candidate, i = prefix + name, 0
+    while hasattr(mod, candidate):
+        i += 1
+        candidate = f"{prefix}{name}_{i}"
+    return candidate
+
+
 class FeaturesCalculator:
     """Abstract class computing the number of features (or channels) for a layer.
 
@@ -91,17 +104,19 @@ class ConstFeaturesCalculator(FeaturesCalculator):
 
     @property
     def features(self) -> torch.Tensor:
-        return cast(torch.Tensor, cast(nn.Module, self.mod).feat_calc_const)
+        return cast(torch.Tensor, getattr(cast(nn.Module, self.mod), self._const_name))
 
     @property
     def features_mask(self) -> torch.Tensor:
-        return cast(torch.Tensor, cast(nn.Module, self.mod).feat_calc_mask)
+        return cast(torch.Tensor, getattr(cast(nn.Module, self.mod), self._mask_name))
 
     def register(self, mod: nn.Module, prefix: str = ""):
         if self.mod is None:
             self.mod = mod
-            mod.register_buffer('feat_calc_const', self.const)
-            mod.register_buffer('feat_calc_mask', self.mask)
+            self._const_name = _free_buffer_name(mod, 'feat_calc_const', prefix)
+            self._mask_name = _free_buffer_name(mod, 'feat_calc_mask', prefix)
+            mod.register_buffer(self._const_name, self.const)
+            mod.register_buffer(self._mask_name, self.mask)
 
 
 class ModAttrFeaturesCalculator(FeaturesCalculator):
@@ -155,15 +170,16 @@ class FlattenFeaturesCalculator(FeaturesCalculator):
 
     @property
     def features(self) -> torch.Tensor:
-        mul = cast(nn.Module, self.mod).feat_calc_multiplier
+        mul = getattr(cast(nn.Module, self.mod), self._multiplier_name)
         return mul * self.prev.features
 
     @property
     def features_mask(self) -> torch.Tensor:
         prev_mask = self.prev.features_mask
         mask_list = []
+        mask_expander = getattr(cast(nn.Module, self.mod), self._mask_expander_name)
         for elm in prev_mask:
-            mask_list.append(elm * cast(nn.Module, self.mod).feat_calc_mask_expander)
+            mask_list.append(elm * mask_expander)
         mask = torch.cat(mask_list, dim=0)
         return mask
 
@@ -173,8 +189,10 @@ class FlattenFeaturesCalculator(FeaturesCalculator):
         self.prev.register(mod, prefix)
         if self.mod is None:
             self.mod = mod
-            mod.register_buffer('feat_calc_multiplier', self.multiplier)
-            mod.register_buffer('feat_calc_mask_expander', self.mask_expander)
+            self._multiplier_name = _free_buffer_name(mod, 'feat_calc_multiplier', prefix)
+            self._mask_expander_name = _free_buffer_name(mod, 'feat_calc_mask_expander', prefix)
+            mod.register_buffer(self._multiplier_name, self.multiplier)
+            mod.register_buffer(self._mask_expander_name, self.mask_expander)
 
 
 class ConcatFeaturesCalculator(FeaturesCalculator):
